@@ -13,7 +13,9 @@
                        every clock the simulated program can read is the simulator's.
 
 Nothing else in std, and nothing in /repo, is touched.  Output: /verif/work/miri-sysroot (about
-200 MB, not committed; rebuilt by MANIFEST.setup_cmd or lazily by ./check).  Offline: cargo-miri
+200 MB, not committed; rebuilt by MANIFEST.setup_cmd or lazily by ./check).  With `--target <triple>` the
+same patched library is built for another target into /verif/work/miri-sysroot-<triple> (used for the
+big-endian lane, s390x-unknown-linux-gnu: Miri interprets any target's MIR on this host).  Offline: cargo-miri
 builds the sysroot from the rust-src component and the vendored crates it ships with.
 Exit 0 = sysroot ready (path printed), anything else = not available (the driver then falls back to the
 stock sysroot and skips the coarse-clock runs).
@@ -26,8 +28,13 @@ import sys
 
 VERIF = os.path.dirname(os.path.dirname(os.path.abspath(__file__)))
 WORK = os.path.join(VERIF, "work")
-SYSROOT = os.path.join(WORK, "miri-sysroot")
-SRC = os.path.join(WORK, "sysroot-src", "rust", "library")
+TARGET = None
+for _i, _a in enumerate(sys.argv):
+    if _a == "--target" and _i + 1 < len(sys.argv):
+        TARGET = sys.argv[_i + 1]
+# one sysroot per target: the host's, and (optional) a big-endian one for the cross-interpreted lane
+SYSROOT = os.path.join(WORK, "miri-sysroot" + ("-" + TARGET if TARGET else ""))
+SRC = os.path.join(WORK, "sysroot-src" + ("-" + TARGET if TARGET else ""), "rust", "library")
 STAMP = os.path.join(SYSROOT, ".verif-stamp")
 
 OLD_INSTANT = """    pub fn now() -> Instant {
@@ -95,7 +102,8 @@ def main():
         print(SYSROOT)
         return 0
     lib = toolchain_lib_src()
-    shutil.rmtree(os.path.join(WORK, "sysroot-src"), ignore_errors=True)
+    srcroot = os.path.dirname(os.path.dirname(SRC))
+    shutil.rmtree(srcroot, ignore_errors=True)
     shutil.rmtree(SYSROOT, ignore_errors=True)
     os.makedirs(os.path.dirname(SRC), exist_ok=True)
     shutil.copytree(lib, SRC, symlinks=True)
@@ -107,12 +115,12 @@ def main():
     open(f, "w").write(s)
     env = dict(os.environ, MIRI_LIB_SRC=SRC, MIRI_SYSROOT=SYSROOT, CARGO_NET_OFFLINE="true")
     env.pop("RUSTFLAGS", None)
-    p = sh(["cargo", "+nightly", "miri", "setup"], env=env, cwd=WORK)
+    p = sh(["cargo", "+nightly", "miri", "setup"] + (["--target", TARGET] if TARGET else []), env=env, cwd=WORK)
     if p.returncode != 0 or not os.path.isdir(os.path.join(SYSROOT, "lib")):
         sys.stderr.write(p.stdout[-3000:] + p.stderr[-6000:])
         raise RuntimeError("cargo miri setup for the patched library failed")
     open(STAMP, "w").write(want)
-    shutil.rmtree(os.path.join(WORK, "sysroot-src"), ignore_errors=True)  # 60 MB of sources no longer needed
+    shutil.rmtree(srcroot, ignore_errors=True)  # 60 MB of sources no longer needed
     print(SYSROOT)
     return 0
 
